@@ -177,6 +177,23 @@ pub fn sgr_bfs_system() -> WinconSys {
     ] {
         sys.push(t.to_vec(), &[]);
     }
+    // over-long sequences (33 parameters, three intermediates) that are abandoned rather than dispatched:
+    // whatever the parser noted about them must be gone when the next sequence starts
+    {
+        let long = format!("\x1b[{}", "1;".repeat(33));
+        for t in [
+            format!("{long}\x18").into_bytes(),
+            format!("{long}\x1a").into_bytes(),
+            format!("{long}<m").into_bytes(),
+            format!("{long}\x1b[31m").into_bytes(),
+            b"\x1b[ !\"\x18".to_vec(),
+            b"\x1b[ !\"\x1b[1m".to_vec(),
+            b"\x1b !\"\x18".to_vec(),
+            format!("\x1bP{}\x18", "1;".repeat(33)).into_bytes(),
+        ] {
+            sys.push(t, &[]);
+        }
+    }
     // non-SGR sequences: must change nothing
     for t in [
         &b"\x1b[H"[..],
